@@ -213,7 +213,7 @@ func vfRunPlan(t *testing.T, plan *vfPlan, keepLog bool) (res *vfResult) {
 		}
 	}()
 	synctest.Test(t, func(t *testing.T) {
-		w := &vfWorld{t: t, prop: plan.Prop, cfg: plan.Cfg, res: res, cacheSynced: map[string]bool{}, lockouts: map[int]time.Duration{}, totpAcceptAt: map[string]time.Time{}, groupChanged: map[string]time.Time{}, subs: map[int]*vfSubscriber{},
+		w := &vfWorld{t: t, prop: plan.Prop, cfg: plan.Cfg, res: res, cacheSynced: map[string]bool{}, lockouts: map[int]time.Duration{}, totpAcceptAt: map[string]time.Time{}, groupChanged: map[string]time.Time{}, subs: map[int]*vfSubscriber{}, returnedCerts: map[string]int{},
 			sessions: map[string]*vfSession{}, tokens: map[string]*vfSoftToken{}, oldPassword: map[string]string{}}
 		if err := w.build(); err != nil {
 			res.Infra = "build: " + err.Error()
